@@ -339,3 +339,7 @@ def main(tier):
                    technique="explicit-state BFS over API call sequences of the real cache against a fact model",
                    assumptions=["ids are small ints, names from a 5-path alphabet; metadata calls not enumerated"])
     return rep.finish()
+
+
+def replay(path):
+    return apix.replay(__name__, path)
